@@ -39,7 +39,15 @@ def _trace_of(binary, universe, world, ops):
             f.write(o + "\n")
     rc, out, err = D.run_proc([binary, "--replay", path, "--digests", "1"], timeout=120)
     os.unlink(path)
-    return [l for l in out.splitlines() if l.startswith("T ") or l.startswith("DIGEST") or l.startswith("VIOL")]
+    return [l for l in out.splitlines() if l.startswith(("T ", "DIGEST", "VIOL", "TERMINATE", "ASAN", "SIGNAL"))]
+
+
+def _first_diff(ta, tb):
+    """index of the first differing trace line (a missing line counts), None when equal"""
+    for i, (a, b) in enumerate(zip(ta, tb)):
+        if a != b:
+            return i
+    return None if len(ta) == len(tb) else min(len(ta), len(tb))
 
 
 def _history_of(binary, universe, idx, seed, args):
@@ -88,7 +96,9 @@ def c17(prop, tier, seed, known):
     for key, (h0, idx) in sorted(digests[base].items(), key=lambda kv: kv[1][1]):
         for fl in C17_FLAVOURS[1:]:
             other = digests[fl].get(key)
-            if other is None or other[0] == h0:
+            # no digest in this build: the seed did not run to its end there (an oracle violation or
+            # a crash / std::terminate that the base build does not have) - a divergence as well
+            if other is not None and other[0] == h0:
                 continue
             mismatches += 1
             if len(violations) >= 3:
@@ -97,7 +107,7 @@ def c17(prop, tier, seed, known):
             world, ops = _history_of(binaries[base], universe, idx, seed, args)
             ta = _trace_of(binaries[base], universe, world, ops)
             tb = _trace_of(binaries[fl], universe, world, ops)
-            first = next((i for i, (a, b) in enumerate(zip(ta, tb)) if a != b), None)
+            first = _first_diff(ta, tb)
             if first is None:
                 continue
             # minimise: shortest prefix that still differs
@@ -116,7 +126,7 @@ def c17(prop, tier, seed, known):
                     i += 1
             ta = _trace_of(binaries[base], universe, world, keep)
             tb = _trace_of(binaries[fl], universe, world, keep)
-            first = next((i for i, (a, b) in enumerate(zip(ta, tb)) if a != b), 0)
+            first = _first_diff(ta, tb) or 0
             opk = keep[-1].split()[1] if keep else "?"
             sig = (opk, ta[first] if first < len(ta) else "")
             if sig in seen_first_diff:
